@@ -47,7 +47,8 @@ TOL = {
     "interior_factor": 1.05,   # ||H z + g|| <= 1.05 max(cg_tol, ratio ||g||) (+ rounding floor of the recurrence residual)
     "path_rel": 1e-6,          # distance of the dogleg point from the path <= 1e-6 ||d|| + 64 eps (||cp|| + ||newton||)
     "exact_ball": 1e-8,        # ||s|| <= Delta (1 + 1e-8)
-    "exact_rel": 1e-7,         # model(s) <= m* + 1e-7 |m*| + 64 eps (||A|| Delta^2 + ||b|| Delta)
+    "exact_rel": 1e-7,         # model(s) <= m* + 1e-7 |m*| + 64 eps (||A|| Delta^2 + ||b|| Delta) (+ 1e-12 mean|sigma| Delta^2 on the
+                               # boundary; interior: + |m*| min(1, (8 eps cond)^2) with m* = model at the longdouble Newton step)
 }
 
 IN_ORACLE = False
@@ -228,6 +229,38 @@ def path_distance(cp, newton, d):
     if r1 <= r2:
         return r1, 0, float(t)
     return r2, 1, float(s)
+
+
+def newton_step_longdouble(A, b):
+    """Unconstrained minimiser -A^-1 b of a positive definite model in longdouble: Cholesky factorisation of the matrix
+    exactly as given + two steps of iterative refinement (numpy has no longdouble LAPACK; n <= 40).  Returns None when the
+    factorisation meets a non-positive pivot (A not positive definite in extended precision)."""
+    A = onp.asarray(A, dtype=LD)
+    A = (A + A.T) / 2
+    n = A.shape[0]
+    L = onp.zeros((n, n), dtype=LD)
+    for j in range(n):
+        d = A[j, j] - L[j, :j] @ L[j, :j]
+        if not d > 0:
+            return None
+        L[j, j] = onp.sqrt(d)
+        if j + 1 < n:
+            L[j + 1:, j] = (A[j + 1:, j] - L[j + 1:, :j] @ L[j, :j]) / L[j, j]
+
+    def solve(r):
+        y = onp.zeros(n, dtype=LD)
+        for i in range(n):
+            y[i] = (r[i] - L[i, :i] @ y[:i]) / L[i, i]
+        x = onp.zeros(n, dtype=LD)
+        for i in range(n - 1, -1, -1):
+            x[i] = (y[i] - L[i + 1:, i] @ x[i + 1:]) / L[i, i]
+        return x
+
+    rhs = -onp.asarray(b, dtype=LD)
+    x = solve(rhs)
+    for _ in range(2):
+        x = x + solve(rhs - A @ x)
+    return x if onp.all(onp.isfinite(x)) else None
 
 
 def trs_global_min(A, b, Delta):
@@ -651,6 +684,19 @@ def _exact_analysis(A, b, Delta, result):
             out["m"] = m
             out["norm"] = float(metric_norm(None, s))
         out["Anorm"] = float(max(abs(ref["sig"][0]), abs(ref["sig"][-1])))
+        # Interior reference that is honest about conditioning: when the matrix as given is positive definite (extended
+        # precision Cholesky succeeds) and its Newton step lies inside the ball, the reference value is the model AT that
+        # step, evaluated exactly -- an upper bound of the true minimum that does not inherit the eps*cond error of a float64
+        # eigen-decomposition.  Used whenever the float64 oracle says "interior" or the lowest eigenvalue is tiny.
+        out["interior_ref"] = None
+        sg = ref["sig"]
+        if sg[-1] > 0 and sg[0] > -64 * EPS * out["Anorm"] and (ref["case"] == "interior" or sg[0] < 1e-6 * sg[-1]):
+            sN = newton_step_longdouble(Ad, bd)
+            if sN is not None:
+                nN = float(onp.sqrt(sN @ sN))
+                if nN <= D * (1 + 1e-9):
+                    mN, _ = model_value(Ad, bd, sN)
+                    out["interior_ref"] = {"m": mN, "norm": nN, "cond": float(sg[-1] / max(sg[0], EPS * sg[-1] * 1e-3))}
         out["bnorm"] = float(onp.linalg.norm(bd))
         return out
     return _memo(result, build)
@@ -689,8 +735,20 @@ def exact_step_is_global_minimizer(A, b, Delta, result):
     a = _exact_analysis(A, b, Delta, result)
     if a["skip"] or not a.get("finite"):
         return True
-    mstar = a["ref"]["m"]
     D = a["Delta"]
+    ir = a.get("interior_ref")
+    if ir is not None:
+        # true minimiser interior: model(s) <= model(Newton) + 1e-7 |m| + rounding of the eigen-decomposition (backward error
+        # 64 eps ||A|| on a step of length <= Delta) + the forward error of dividing by a lowest eigenvalue that float64 only
+        # knows to eps*cond: |m| min(1, (8 eps cond)^2).  The routine's hard-case tolerance does NOT apply: no multiplier.
+        LOG.count("exact.interior_reference_used")
+        mstar = ir["m"]
+        ec = min(1.0, (8 * EPS * ir["cond"]) ** 2)
+        allowed = (LD(TOL["exact_rel"]) * abs(mstar) + LD(64 * EPS) * (LD(a["Anorm"]) * D * D + LD(a["bnorm"]) * D)
+                   + LD(ec) * abs(mstar) + LD(8) * LD(onp.finfo(float).tiny) * D * D)
+        return _bound("exact.global_min", float(a["m"] - mstar), float(allowed),
+                      _detail_ex(a, {"model": float(a["m"]), "model_newton": float(mstar), "newton_norm": ir["norm"], "cond": ir["cond"]}))
+    mstar = a["ref"]["m"]
     # 1e-7 |m*|  +  rounding of the eigen-decomposition  +  the routine's own hard-case tolerance eps = 1e-12 mean|sigma|
     # (a multiplier within eps of the pole is treated as the hard case: sub-optimality <= eps Delta^2 / 2)
     allowed = (LD(TOL["exact_rel"]) * abs(mstar) + LD(64 * EPS) * (LD(a["Anorm"]) * D * D + LD(a["bnorm"]) * D)
